@@ -27,6 +27,8 @@ def tasks(ctx, quick):
             comp.append([1, 1, 0, nl])
         t = {"id": "t%d" % i, "kind": "d2o", "compound": ["dict", comp], "d": rng.choice([0.0, 0.25, 0.5, 1.0, rng.random()]),
              "v": rng.choice([0.0, 0.25, 0.5, 1.0, rng.random()])}
+        if i % 4 == 2:
+            t["kwdens"] = True
         if i % 5 == 1:
             t["vector"] = rng.choice([3, 3, 2, 4])            # D2O fractions given as one array (a contrast series)
         t["natural_density" if i % 2 else "density"] = rng.choice([1.0, 1.35, 0.9, 2.2, rng.uniform(0.5, 5)])
